@@ -15,6 +15,11 @@ Checked relations (exactly the sentences of the property):
 plus one reference relation ("transforming to the other form"): the result of a base transform is the
 other form of the same records as written down by the harness.
 All comparisons: same column set, same multiset of rows, tolerant floats, null == NaN (vp.cmp).
+
+Generator flags a known finding can close (ctx.closed): "polars_cdata" (no Polars step is run),
+"compose_row_side" (no composite whose input or output is the row form), "compose_lossy_to_rows"
+(no composite of a content-key-dropping block->block map followed by a ->rows map).
+Replays of the two compose defects found while building this check: replays/C17/open-compose-*.json.
 """
 
 from __future__ import annotations
@@ -40,7 +45,7 @@ CONTENT_POOL = ["a", "b", "c", "d", "e", "f", "h", "i", "j", "l", "n", "o", "T_E
 
 STR_CELLS = ["", "a", "b", "x y", "NA", "nan", "None", "a value", "é", "0", "1.5", "id"]
 STR_KEYS = ["p", "q", "r", "s", "", "a"]
-CT_STR_KEYS = ["x", "y", "z", "t", "u v", "a", "b"]
+CT_STR_KEYS = ["x", "y", "z", "t", "u v", "a", "b", "", "X", "10", "q", "r", "é", "k"]
 
 
 # ---- plain-data tables -------------------------------------------------------------------------
@@ -637,7 +642,7 @@ FACTORS = {n: [(r, n // r) for r in range(2, n + 1) if n % r == 0 and n // r <= 
 
 
 def _key_rows(draw, kt, n):
-    elems = [st.integers(0, 6) if t == "i" else st.sampled_from(CT_STR_KEYS) for t in kt]
+    elems = [st.integers(0, 15) if t == "i" else st.sampled_from(CT_STR_KEYS) for t in kt]
     rows = draw(st.lists(st.tuples(*elems), min_size=n, max_size=n, unique=True))
     return [list(r) for r in rows]
 
@@ -843,5 +848,5 @@ def run(ctx):
 
         return oracle
 
-    ctx.campaign("main", case_st(nulls=False, closed=closed), make_oracle(False), max_examples=ctx.n(280, 45000))
+    ctx.campaign("main", case_st(nulls=False, closed=closed), make_oracle(False), max_examples=ctx.n(250, 45000))
     ctx.campaign("null_cells", case_st(nulls=True, closed=closed), make_oracle(True), max_examples=ctx.n(25, 3000))
